@@ -329,7 +329,7 @@ impl Gen {
             5 => -(r.range(1, 1000) as i64),
             6 => (r.next() >> r.below(63)) as i64,
             7 => -((r.next() >> (1 + r.below(62))) as i64),
-            8 => 10i64.pow(r.below(19) as u32),
+            8 => { let k = 10i64.pow(r.below(19) as u32); match r.below(4) { 0 => k, 1 => k - 1, 2 => -(k - r.below(1000) as i64), _ => k - r.below(1000) as i64 } }
             _ => r.next() as i64,
         }
     }
